@@ -221,3 +221,21 @@ From Cooler Require Import Gen.Translated.
 Theorem C04_float_division_source_pins : Gen.float_division_pins_extent = true.
 Proof. reflexivity. Qed.
 Print Assumptions C04_float_division_source_pins.
+
+(** the tail of util.parse_region (defaults of an open start / end, "End cannot be less than start", "Genomic region out of
+    bounds") as translated from util.py on every run is the model's region check, for every chromosome table and region: the
+    theorems above about [extent] are statements about the comparisons the source has now.  The tuple / string dispatch,
+    the chromsizes lookup and the defaults are pinned by the translator. *)
+From Cooler Require Import Proofs.GenBridgeRegion.
+Theorem C04_source_parse_region_is_model : forall sizes c s e,
+  Extent.parse_region sizes c s e =
+  match nth_error sizes c with
+  | None => None
+  | Some L => match Gen.parse_region_tail s e (Some L) with None => None | Some (s', e') => Some (c, s', e') end
+  end.
+Proof. exact gen_parse_region_is_extent_model. Qed.
+Print Assumptions C04_source_parse_region_is_model.
+
+Theorem C04_parse_region_source_pins : Gen.parse_region_source_pins = true.
+Proof. reflexivity. Qed.
+Print Assumptions C04_parse_region_source_pins.
